@@ -182,6 +182,7 @@ func init() {
 			return sym.Bool(e.M.Known[e.strArg(a[0])])
 		},
 		"vAllocCheck": func(e *Exec, c *frame, fn *ssa.Function, a []Value) Value { return nil },
+		"vPause":    func(e *Exec, c *frame, fn *ssa.Function, a []Value) Value { return nil },
 		"vRaceMode": func(e *Exec, c *frame, fn *ssa.Function, a []Value) Value { return sym.Bool(false) },
 		"vSymbolic": func(e *Exec, c *frame, fn *ssa.Function, a []Value) Value { return sym.Bool(true) },
 		"vConc": func(e *Exec, c *frame, fn *ssa.Function, a []Value) Value {
@@ -292,6 +293,9 @@ func init() {
 		},
 		"(*sync.WaitGroup).Wait": func(e *Exec, c *frame, fn *ssa.Function, a []Value) Value {
 			if e.locks[a[0].(*Value)] != 0 {
+				if e.goDepth > 0 {
+					panic(goBlocked{}) // an inlined goroutine (footprint mode) is left waiting
+				}
 				e.unsupported("WaitGroup.Wait would block in a sequential harness")
 			}
 			return nil
@@ -335,6 +339,22 @@ func init() {
 		},
 		"strings.Clone": func(e *Exec, c *frame, fn *ssa.Function, a []Value) Value {
 			return e.copyBytes(a[0].(Slice), false)
+		},
+		// ---- the clock: an arbitrary fixed instant (deadlines and timestamps have
+		// no effect on the models of the transport) ----
+		"time.Now": func(e *Exec, c *frame, fn *ssa.Function, a []Value) Value {
+			t := zero(e.M.namedType("time", "Time")).(Struct)
+			t[0] = sym.Const(64, 1<<63|1<<30) // hasMonotonic, some seconds
+			t[1] = sym.Const(64, 1000)
+			return t
+		},
+		// ---- runtime diagnostics: opaque text (logging has no protocol effect) ----
+		"runtime/debug.Stack": func(e *Exec, c *frame, fn *ssa.Function, a []Value) Value {
+			return e.copyBytes(litString("goroutine 1 [running]:\n"), false)
+		},
+		"runtime/debug.PrintStack": func(e *Exec, c *frame, fn *ssa.Function, a []Value) Value { return nil },
+		"runtime.Stack": func(e *Exec, c *frame, fn *ssa.Function, a []Value) Value {
+			return i64zero
 		},
 		// ---- strings / strconv ----
 		"strings.TrimSpace": modelTrimSpace,
